@@ -289,6 +289,7 @@ def targets_of(forest, xml, parentless):
 
 
 def run_main(sv, tier, i, n, res):
+    import bs4
     texts, base = selector_texts(sv, tier)
     focus = focus_elements(tier)
     if i == 0:
@@ -329,8 +330,30 @@ def run_main(sv, tier, i, n, res):
                     res.outcome('raised')
                     if bad[0][1] == 'timeout':
                         hung.add(text)
-                        res.fail({'layer': 'main', 'context': context, 'element': batch[0], 'selector': text, 'entry': bad[0][0], 'around': True},
-                                 {'kind': 'raise', 'exc': 'timeout', 'values': ''}, f'[{context}] {bad[0][0]}({text!r}) did not return within the watchdog')
+                        # find ONE element of the batch on which the call does not return on its own (so that the witness replays in a fresh
+                        # interpreter); a short watchdog per element, stop at the first
+                        culprit, sib = None, ('e', 'p', (), ())
+                        for around in (False, True):
+                            for spec in batch:
+                                f1, x1, p1 = wrap(context, [sib, spec, sib] if around else [spec])
+                                try:
+                                    with shard.deadline(2):
+                                        for t1, e1 in targets_of(f1, x1, p1):
+                                            c.select(t1)
+                                            if not isinstance(t1, bs4.BeautifulSoup):
+                                                c.match(t1)
+                                                c.closest(t1)
+                                except shard.CaseTimeout:
+                                    culprit = (spec, around)
+                                    break
+                                except Exception:
+                                    pass
+                            if culprit:
+                                break
+                        res.fail({'layer': 'main', 'context': context, 'element': culprit[0] if culprit else batch[0], 'selector': text, 'entry': bad[0][0],
+                                  'around': culprit[1] if culprit else True},
+                                 {'kind': 'raise', 'exc': 'timeout', 'values': value_kind(culprit[0]) if culprit else ''},
+                                 f'[{context}] {bad[0][0]}({text!r}) did not return within the watchdog' + (f' on {T.to_markup((culprit[0],))[:120]!r}' if culprit else ''))
                         break
                     if nbad == 1:
                         found = locate(sv, c, text, context, batch, bad[0][0], res)
